@@ -123,7 +123,8 @@ class Board:
                 index = 0
             return str(self.vars[index]) if tok is None else str(tok % 256)
         if up == "QT":
-            return self.nickname if tok is None else "n%d" % tok
+            # a nickname is arbitrary text: every third token spells one that begins with "OK" (e.g. "OKeefe")
+            return self.nickname if tok is None else ("OK%d" % tok if tok % 3 == 0 else "n%d" % tok)
         if up == "QE":
             m1 = QE_CODE[self.mode] if self.motor1 else 0
             m2 = QE_CODE[self.mode] if self.motor2 else 0
